@@ -282,7 +282,20 @@ var loadMu sync.RWMutex
 var tmpMu sync.Mutex
 var tmpDirs []string
 
+// freeAddr picks an address for a server the extension itself will bind (telemetry, HTTP ingestion).
+// The port is taken BELOW the kernel's ephemeral range: the httptest servers of the runs in flight get
+// ephemeral ports, and one of them once received the port between our close and the extension's bind -
+// a function's ingestion POSTs then landed on another run's fake upstream (same path /v2/raw).
+var portSeq uint32
+
 func freeAddr() (string, net.Listener) {
+	base := 20000 + (os.Getpid()*97)%10000
+	for i := 0; i < 4000; i++ {
+		p := 20000 + (base-20000+int(atomic.AddUint32(&portSeq, 1))*7)%12000
+		if l, err := net.Listen("tcp", "127.0.0.1:"+strconv.Itoa(p)); err == nil {
+			return l.Addr().String(), l
+		}
+	}
 	l, err := net.Listen("tcp", "127.0.0.1:0")
 	if err != nil {
 		panic(err)
@@ -347,6 +360,11 @@ func runScenario(in input) (res result) {
 	attempts := map[string]int{}
 	upstream := httptest.NewServer(http.HandlerFunc(func(w http.ResponseWriter, r *http.Request) {
 		body, _ := io.ReadAll(r.Body)
+		if r.Header.Get("X-C20-Run") != tag {
+			// not from the extension of this run (a stray request of another run or process): not ours to judge
+			w.WriteHeader(http.StatusNotFound)
+			return
+		}
 		if r.URL.Path != "/v2/raw" {
 			lg.add(ev{K: "upother"})
 			return
@@ -524,6 +542,7 @@ func runScenario(in input) (res result) {
 		"consolidator-slots":       slots,
 		"compress":                 in.Compress,
 		"max-request-elapsed-time": maxElapsed,
+		"custom-headers":           map[string]string{"X-C20-Run": tag},
 	}
 	if in.FlushMs > 0 {
 		ht["flush-interval"] = time.Duration(in.FlushMs) * time.Millisecond
@@ -580,6 +599,7 @@ func runScenario(in input) (res result) {
 		if in.FlushMs > 0 {
 			fmt.Fprintf(&cfg, "flush-interval = \"%dms\"\n", in.FlushMs)
 		}
+		fmt.Fprintf(&cfg, "[http-transport.custom-headers]\nX-C20-Run = %q\n", tag)
 		cfgPath := filepath.Join(dir, "c20.toml")
 		if err := os.WriteFile(cfgPath, []byte(cfg.String()), 0o600); err != nil {
 			res.infra = err.Error()
